@@ -18,7 +18,7 @@ LEVEL_TEXT = ("Every encode/decode call of the workload (and of tests/test_codin
 LEVEL_NOTE = ("Trusts the 60-line reference coder in vlib/oracles.py (Python ints, divmod, sorted-by-table-entry). Decode is "
               "judged only where the property defines the result (value fits in the width; fast mode: carried bits == L, or "
               "L+1 with a zero pad bit).")
-PLAN = {"quick": dict(shards=17, budget=100), "thorough": dict(shards=33, budget=420)}
+PLAN = {"quick": dict(shards=17, budget=100), "thorough": dict(shards=17, budget=420)}
 SPECIAL_SHARD = True  # the last shard runs the repository's own coding tests in-process under the contracts
 EXHAUSTIVE = ["tables24xpatterns15"]
 RULE = ("icontract ensure on dsw.encode: strand == reference strand (little-endian mixed radix, digit d -> d-th live arc in "
